@@ -1150,6 +1150,7 @@ class Canon:
         b = lift_walrus(b)
         inl = Inliner(self._lookup(module, cls, fn, set(inline), set(keep)))
         b = inl.rec(b, inl.depth, (fn.name,))
+        b = lift_walrus(lift_ifexp(b))          # conditional expressions returned by inlined helpers
         used = {n.id for s in b for n in ast.walk(s) if isinstance(n, ast.Name)} | {n.func.id for s in b for n in ast.walk(s) if isinstance(n, ast.Call) and isinstance(n.func, ast.Name)}
         b = [s for s in b if not (isinstance(s, ast.FunctionDef) and s.name not in used)]
         b = self.call_layout(b, module, cls)
